@@ -787,19 +787,28 @@ CONTRACTS[IU + "curvature_matrix_off_diags_via_mapper_and_linear_func_curvature_
 # ------------------------------------------------------------------------------------------------
 # the w-tilde preload: exact sparse encoding of the upper triangle of W (diagonal halved), every non-zero entry whatever its sign
 # ------------------------------------------------------------------------------------------------
-_INTV = "{x} == toreal(toint({x}))"
-_LOK = "forall(0, N, lambda j: L[j] >= 0 and " + _INTV.format(x="L[j]") + ")"
+_INTV = "isint({x})"
+_LOK = "forall(0, N, lambda j: L[j] >= 0 and isint(L[j]) and toint(L[j]) >= 0)"
 spec_fn(
     "c04_psum", params=[("L", "real[1]"), ("i", "int")], ret="real", let={"N": "L.shape[0]"},
     axioms=["c04_psum(L, 0) == 0",
             "forall(0, N, lambda i: c04_psum(L, i + 1) == c04_psum(L, i) + L[i], pat=c04_psum(L, i + 1))"],
-    lemmas=[dict(name="mono", induct="n", lo=0, hi="N",
-                 stmt="implies(" + _LOK + ", forall(0, n + 1, lambda k1: 0 <= c04_psum(L, k1) and c04_psum(L, k1) <= c04_psum(L, n),"
-                      " pat=((c04_psum(L, k1), c04_psum(L, n)),)))"),
-            dict(name="integral", induct="n", lo=0, hi="N",
-                 stmt="implies(" + _LOK + ", " + _INTV.format(x="c04_psum(L, n)") + ")")],
     py=lambda L, i: float(np.sum(np.asarray(L, dtype=float)[:i])),
-    doc="prefix sums of a float array of lengths (np.sum of the preload lengths; offsets of the rows in the concatenated preload)",
+    doc="prefix sums of a float array (np.sum of the preload lengths)",
+)
+# integer offsets of the rows in the concatenated preload: sum of the (integer-valued) float lengths of the rows before
+spec_fn(
+    "c04_offr", params=[("L", "real[1]"), ("i", "int")], ret="int", let={"N": "L.shape[0]"},
+    axioms=["c04_offr(L, 0) == 0",
+            "forall(0, N, lambda i: c04_offr(L, i + 1) == c04_offr(L, i) + toint(L[i]), pat=c04_offr(L, i + 1))"],
+    lemmas=[dict(name="mono", induct="n", lo=0, hi="N",
+                 stmt="implies(" + _LOK + ", forall(0, n + 1, lambda k1: 0 <= c04_offr(L, k1) and c04_offr(L, k1) <= c04_offr(L, n),"
+                      " pat=((c04_offr(L, k1), c04_offr(L, n)),)))"),
+            # the float sum numpy computes is this integer (for integer-valued non-negative entries)
+            dict(name="npsum", induct="n", lo=0, hi="N",
+                 stmt="implies(" + _LOK + ", toreal(c04_offr(L, n)) == c04_psum(L, n))")],
+    py=lambda L, i: int(sum(int(v) for v in np.asarray(L)[:i])),
+    doc="start of row i in the concatenated preload",
 )
 
 # W'[p,q]: the stored value -- the overlap, halved on the diagonal (the curvature routine adds the transpose)
@@ -829,11 +838,12 @@ def _rows(lim):
     return out
 
 
-_LENOK = ("forall(0, {lim}, lambda p: " + _INTV.format(x="{L}[p]") + " and 0 <= {L}[p] and {L}[p] <= N - p)")
+_OS = "(2 * Ky - 1) * (2 * Kx - 1)"
+_LENOK = ("forall(0, {lim}, lambda p: isint({L}[p]) and 0 <= {L}[p] and 0 <= toint({L}[p]) and toint({L}[p]) <= N - p and toint({L}[p]) <= " + _OS + ")")
 _SORTED = ("forall(0, N, lambda p: forall(p + 1, N, lambda q: nfs[p, 0] < nfs[q, 0] or (nfs[p, 0] == nfs[q, 0] and nfs[p, 1] < nfs[q, 1])))")
 _INWIN = "(nfs[{q}, 0] - nfs[ip0, 0] <= 2 * hy and nfs[{q}, 1] - nfs[ip0, 1] <= 2 * hx and nfs[ip0, 1] - nfs[{q}, 1] <= 2 * hx)"
 _RANK = "((nfs[{q}, 0] - nfs[ip0, 0]) * (4 * hx + 1) + nfs[{q}, 1] - nfs[ip0, 1] + 2 * hx)"
-_POS = "toint(c04_psum({L}, {p})) + {c}"
+_POS = "c04_offr({L}, {p}) + {c}"
 _RES_ROW = _row("result[0]", "result[1]", "p", "toint(result[2][p])", "N", pos=_POS.format(L="result[2]", p="p", c="{c}"))
 _COPIED = ("forall(0, {lim}, lambda p: forall(0, toint(curvature_lengths[p]), lambda c:"
            " curvature_preload[" + _POS.format(L="curvature_lengths", p="p", c="c") + "] == curvature_preload_tmp[p, c]"
@@ -843,15 +853,15 @@ contract(
     types=_WT3, returns="(real[1],real[1],real[1])", let=_NAT,
     requires=_NATREQ + [_SORTED],      # pixels listed in row-major order, as native_index_for_slim_index_2d_from (C01) produces them
     ensures=["result[2].shape[0] == N", _LENOK.format(lim="N", L="result[2]"),
-             "toreal(result[0].shape[0]) == c04_psum(result[2], N) and result[1].shape[0] == result[0].shape[0]"]
+             "result[0].shape[0] == c04_offr(result[2], N) and result[1].shape[0] == result[0].shape[0]"]
             + ["forall(0, N, lambda p: %s)" % r for r in _RES_ROW],
     loops={
         0: {"inv": [_LENOK.format(lim="ip0", L="curvature_lengths")] + _rows("ip0")},
-        1: {"inv": _rows("ip0") + ["0 <= kernel_index and kernel_index <= ip1 - ip0"]
+        1: {"inv": _rows("ip0") + ["0 <= kernel_index and kernel_index <= ip1 - ip0 and kernel_index <= " + _OS]
                    + _row("curvature_preload_tmp", "curvature_indexes_tmp", "ip0", "kernel_index", "ip1", pos="ip0, {c}")
                    + ["forall(ip1, N, lambda q: implies(" + _INWIN.format(q="q") + ", kernel_index <= " + _RANK.format(q="q") + "))"]},
-        2: {"inv": ["toreal(index) == c04_psum(curvature_lengths, i)", _COPIED.format(lim="i")]},
-        3: {"inv": ["toreal(index) <= c04_psum(curvature_lengths, i) + data_index and toreal(index) >= c04_psum(curvature_lengths, i) + data_index",
+        2: {"inv": ["index == c04_offr(curvature_lengths, i)", _COPIED.format(lim="i")]},
+        3: {"inv": ["index <= c04_offr(curvature_lengths, i) + data_index and index >= c04_offr(curvature_lengths, i) + data_index",
                     _COPIED.format(lim="i"),
                     "forall(0, data_index, lambda c: curvature_preload[" + _POS.format(L="curvature_lengths", p="i", c="c") + "] == curvature_preload_tmp[i, c]"
                     " and curvature_indexes[" + _POS.format(L="curvature_lengths", p="i", c="c") + "] == curvature_indexes_tmp[i, c])"]},
